@@ -14,8 +14,9 @@
 //!  (a) `is_borrowed()` exactly when the source was borrowed, and then its pointer IS std's piece
 //!      pointer (i.e. it aliases the original borrowed data, not a copy);
 //!  (b) after the source has been mutated in place (`make_ascii_uppercase`, `push_str`) and after it
-//!      has been dropped, the piece still reads the same string (freed memory is poisoned with 0xDD by
-//!      this bin's allocator, so a dangling piece is visible);
+//!      has been dropped, the piece still reads the same string. Before a heap piece is read at those
+//!      stages its `as_ptr()..+len` is looked up in the allocator's block table: a piece that views a
+//!      freed (quarantined) or unknown block is reported ("piece views freed memory") instead of read;
 //!  (c) `from_utf8(piece.as_bytes())` is `Ok`, and the representation is normalised.
 //! Allocating functions (`to_lowercase`, `to_uppercase`, `to_ascii_*case`, `repeat`, `from_utf16`,
 //! `from_utf16_lossy`) are compared with std on a case-sensitive alphabet / on all short `u16` sequences
@@ -25,44 +26,83 @@
 //!   `hay <hex> <inline|borrowed|heap|heapslice> <Arc|Rc|Unique>`   then   `call <label>`
 //! A disagreement found on a long haystack is shrunk by deleting characters while it reproduces.
 //! `--lean <wiring_driver>` (optional): asks `rows`; anything but `none` is an `impl-vs-model` report.
+//!
+//! Robustness against memory-unsafety of the implementation under test:
+//!  * the global allocator is `hipverif_harness::alloc::Tracking`: every source is run inside a TRACK
+//!    window in which freed blocks are poisoned and quarantined (never reused, never handed back to the
+//!    system before the end of the window); a second free, a free of an unknown / poisoned-looking /
+//!    misaligned address is SWALLOWED and recorded; red zones and the poison of freed blocks are verified
+//!    and blocks still allocated are reported at the end of the window. All of these are `monitor`
+//!    disagreements (`[alloc:double-free]`, …) attributed to the stage (`@mutate-source`, `@drop-source`,
+//!    `@drop-pieces`, `@end`) of the haystack at hand;
+//!  * `stats.json` is rewritten atomically (tmp + rename, `"complete": false`) whenever a new
+//!    disagreement is recorded and at the end (`"complete": true`); the run stops after 20 distinct
+//!    disagreements, and at once — remaining handles are `mem::forget`-ed, no shrinking — when a
+//!    memory-safety monitor fired (the heap may be corrupted): exit code 1;
+//!  * `VERIF_TRACE=<path>`: `<path>` is overwritten (one padded line) before every haystack×method case
+//!    and every stage, so that after a crash it names the case that was running.
 
-use std::alloc::{GlobalAlloc, Layout, System};
 use std::collections::BTreeMap;
 use std::panic::{catch_unwind, AssertUnwindSafe};
+use std::sync::atomic::{AtomicBool, Ordering};
+use std::sync::OnceLock;
 
 use hipstr::string::HipStr;
 use hipstr::{Arc, Backend, Rc, Unique};
+use hipverif_harness::alloc;
 use hipverif_harness::util::{hex, parse_cli, unhex, LeanDriver, Rng};
 
 // ---------------------------------------------------------------------------------------------
-// allocator: poison on free
+// allocator (shared with coredrive): header + red zones, poison + quarantine of freed blocks while
+// tracking, block table, swallowed bad frees
 
-struct PoisonAlloc;
-unsafe impl GlobalAlloc for PoisonAlloc {
-    unsafe fn alloc(&self, l: Layout) -> *mut u8 {
-        unsafe { System.alloc(l) }
-    }
-    unsafe fn dealloc(&self, p: *mut u8, l: Layout) {
-        unsafe {
-            std::ptr::write_bytes(p, 0xDD, l.size());
-            System.dealloc(p, l)
-        }
-    }
-    unsafe fn realloc(&self, p: *mut u8, l: Layout, n: usize) -> *mut u8 {
-        // never in place: the old block is poisoned and freed
-        unsafe {
-            let q = System.alloc(Layout::from_size_align_unchecked(n, l.align()));
-            if !q.is_null() {
-                std::ptr::copy_nonoverlapping(p, q, l.size().min(n));
-                std::ptr::write_bytes(p, 0xDD, l.size());
-                System.dealloc(p, l);
-            }
-            q
-        }
+#[global_allocator]
+static GLOBAL: alloc::Tracking = alloc::Tracking;
+
+/// mirror of `alloc::MAX_ENTRIES`: once that many blocks are registered, later ones are not tracked
+const TABLE_CAP: usize = 1 << 14;
+
+fn alloc_kind(k: u8) -> &'static str {
+    match k {
+        alloc::V_FREE_UNKNOWN => "monitor:alloc:free-of-unknown-address",
+        alloc::V_DOUBLE_FREE => "monitor:alloc:double-free",
+        alloc::V_LAYOUT => "monitor:alloc:dealloc-layout-differs-from-alloc-layout",
+        alloc::V_REDZONE => "monitor:alloc:red-zone-damaged",
+        alloc::V_POISON => "monitor:alloc:write-into-freed-block",
+        alloc::V_LEAK => "monitor:leak",
+        _ => "monitor:alloc:other",
     }
 }
-#[global_allocator]
-static A: PoisonAlloc = PoisonAlloc;
+
+/// monitors after which the heap cannot be trusted any more
+fn is_memory_safety(kind: &str) -> bool {
+    kind.starts_with("monitor:alloc")
+        || kind == "monitor:freed-memory"
+        || kind == "monitor:after-source-mutation"
+        || kind == "monitor:after-source-drop"
+}
+
+// ---------------------------------------------------------------------------------------------
+// crash localisation
+
+static TRACE_ON: AtomicBool = AtomicBool::new(false);
+static TRACE_FILE: OnceLock<std::fs::File> = OnceLock::new();
+
+fn trace_on() -> bool {
+    TRACE_ON.load(Ordering::Relaxed)
+}
+
+/// overwrites the trace file with one line (padded to 1024 bytes: a single `pwrite`, no truncation)
+fn trace(line: &str) {
+    if let Some(f) = TRACE_FILE.get() {
+        use std::os::unix::fs::FileExt;
+        let mut buf = [b' '; 1024];
+        let n = line.len().min(1023);
+        buf[..n].copy_from_slice(&line.as_bytes()[..n]);
+        buf[1023] = b'\n';
+        let _ = f.write_at(&buf, 0);
+    }
+}
 
 const INLINE_CAP: usize = 23;
 
@@ -178,6 +218,7 @@ fn collect_fwd<I: Iterator>(it: I) -> Vec<I::Item> {
 // ---------------------------------------------------------------------------------------------
 // per-source context
 
+#[derive(Clone)]
 struct Fail {
     kind: &'static str,
     label: String,
@@ -196,6 +237,11 @@ struct Piece<'h, B: Backend> {
 struct Cx<'h, 'f, B: Backend> {
     h: &'h str,
     src_borrowed: bool,
+    src_allocated: bool,
+    /// `hay <hex> <kind> <backend>` (only when tracing)
+    trace_prefix: String,
+    /// pieces equal to the whole haystack of an allocated source
+    whole_heap: u64,
     pieces: Vec<Piece<'h, B>>,
     fails: Vec<Fail>,
     filter: Option<&'f str>,
@@ -226,6 +272,9 @@ impl<'h, 'f, B: Backend> Cx<'h, 'f, B> {
         Cx {
             h,
             src_borrowed,
+            src_allocated: false,
+            trace_prefix: String::new(),
+            whole_heap: 0,
             pieces: vec![],
             fails: vec![],
             filter,
@@ -246,9 +295,13 @@ impl<'h, 'f, B: Backend> Cx<'h, 'f, B> {
     /// starts a call; false = filtered out
     fn begin(&mut self, m: &'static str, pat: &'static str, n: Option<usize>, dir: Dir) -> bool {
         if let Some(f) = self.filter {
-            if label(m, pat, n, dir) != f {
+            // a stage label (`@drop-source`, …) selects the whole run
+            if !f.starts_with('@') && label(m, pat, n, dir) != f {
                 return false;
             }
+        }
+        if trace_on() {
+            trace(&format!("{} | call {}", self.trace_prefix, label(m, pat, n, dir)));
         }
         self.cur = (m, pat, n, dir);
         self.cur_pushed = false;
@@ -323,27 +376,68 @@ impl<'h, 'f, B: Backend> Cx<'h, 'f, B> {
             self.cur_pushed = true;
         }
         let call = (self.calls_meta.len() - 1) as u32;
+        if self.src_allocated && len == self.h.len() {
+            self.whole_heap += 1;
+        }
         self.pieces.push(Piece { p, off: off as u32, len: len as u32, call });
     }
 
-    /// (b): every recorded piece still reads the std piece
+    /// a stage of the source's life (`@mutate-source`, …): trace line + attribution of what follows
+    fn stage(&mut self, name: &'static str) {
+        if trace_on() {
+            trace(&format!("{} | stage {name}", self.trace_prefix));
+        }
+        self.cur = (name, "-", None, Dir::Fwd);
+    }
+
+    /// allocator violations recorded since the last call, attributed to the current stage
+    fn alloc_violations(&mut self, ignore_leaks: bool) {
+        for (k, serial, size) in alloc::take_violations() {
+            if k == alloc::V_TABLE_FULL || (k == alloc::V_LEAK && ignore_leaks) {
+                continue;
+            }
+            self.fail(
+                alloc_kind(k),
+                "every block freed exactly once with its own layout, nothing written outside live blocks, nothing leaked".into(),
+                format!("{} (block #{serial}, size {})", alloc::violation_name(k), size & 0xffff_ffff_ffff),
+            );
+        }
+    }
+
+    /// (b): every recorded piece still reads the std piece; a heap piece is first looked up in the
+    /// allocator's block table and NOT read when it views freed or unknown memory
     fn verify(&mut self, stage: &'static str, kind: &'static str) {
-        let mut bad: Vec<(u32, String, String)> = vec![];
+        let mut bad: Vec<(u32, &'static str, String, String)> = vec![];
+        let table_full = alloc::registered() >= TABLE_CAP;
         for pc in &self.pieces {
             let want = &self.h.as_bytes()[pc.off as usize..(pc.off + pc.len) as usize];
+            // heap pieces, and "borrowed" pieces of a source that had nothing borrowed
+            if pc.p.is_allocated() || (pc.p.is_borrowed() && !self.src_borrowed && pc.p.len() > 0) {
+                let (ptr, len) = (pc.p.as_ptr() as usize, pc.p.len());
+                let problem = match alloc::find(ptr) {
+                    Some(b) if b.live && ptr + len <= b.start + b.size => None,
+                    Some(b) if b.live => Some(format!("piece reaches beyond live block #{} (size {}): offset {} len {len}", b.serial, b.size, ptr - b.start)),
+                    Some(b) => Some(format!("piece views freed memory: block #{} (size {}), offset {} len {len}", b.serial, b.size, ptr - b.start)),
+                    None if table_full => None,
+                    None => Some(format!("piece views memory outside every tracked block (len {len})")),
+                };
+                if let Some(o) = problem {
+                    bad.push((pc.call, "monitor:freed-memory", format!("piece {} {stage} views a live block", hex(want)), o));
+                    if bad.len() >= 8 {
+                        break;
+                    }
+                    continue;
+                }
+            }
             let got = pc.p.as_bytes();
             if got != want {
-                bad.push((
-                    pc.call,
-                    format!("piece {} {stage}", hex(want)),
-                    format!("{} is_borrowed={}", hex(got), pc.p.is_borrowed()),
-                ));
+                bad.push((pc.call, kind, format!("piece {} {stage}", hex(want)), format!("{} is_borrowed={}", hex(got), pc.p.is_borrowed())));
                 if bad.len() >= 8 {
                     break;
                 }
             }
         }
-        for (call, e, o) in bad {
+        for (call, kind, e, o) in bad {
             self.cur = self.calls_meta[call as usize];
             self.fail(kind, e, o);
         }
@@ -770,6 +864,13 @@ struct Stats {
     found: BTreeMap<String, (String, Kind, Bk, Fail)>,
     total_fails: u64,
     internal: Vec<String>,
+    /// why the run ended before the plan was through
+    stop: Option<&'static str>,
+    out_path: Option<String>,
+    profile: &'static str,
+    replay: bool,
+    /// disagreements that are not haystack cases (the Lean `rows` answer)
+    extra: Vec<serde_json::Value>,
 }
 impl Stats {
     fn hit(&mut self, k: &str, n: u64) {
@@ -777,8 +878,23 @@ impl Stats {
     }
 }
 
+/// What one source produced; everything in here was allocated inside the TRACK window.
+struct Tracked {
+    fails: Vec<Fail>,
+    calls: u64,
+    nontrivial: u64,
+    pieces: u64,
+    repr: [u64; 3],
+    whole_heap: u64,
+    per_method: BTreeMap<&'static str, u64>,
+    samples: Vec<String>,
+    src_class: &'static str,
+    /// handles were leaked on purpose after a monitor fired
+    forgot: bool,
+}
+
 /// Builds the source, runs everything, then mutates and drops the source and re-reads every piece.
-fn run_source<B: Backend>(h: &str, kind: Kind, filter: Option<&str>, sample: Option<u64>) -> (Vec<Fail>, SrcStats) {
+fn tracked<B: Backend>(h: &str, kind: Kind, bk: &'static str, filter: Option<&str>, sample: Option<u64>) -> Tracked {
     // heapslice: the haystack sits at an offset inside a bigger heap buffer
     let big: String = format!("0123456789-{h}-9876543210");
     let src: HipStr<'_, B> = match kind {
@@ -792,6 +908,10 @@ fn run_source<B: Backend>(h: &str, kind: Kind, filter: Option<&str>, sample: Opt
     };
     let mut cx: Cx<'_, '_, B> = Cx::new(h, src.is_borrowed(), filter);
     cx.sample_at = sample;
+    cx.src_allocated = src.is_allocated();
+    if trace_on() {
+        cx.trace_prefix = format!("hay {} {} {bk}", hex(h.as_bytes()), kind.name());
+    }
     let src_class = if src.is_inline() {
         "inline"
     } else if src.is_borrowed() {
@@ -804,12 +924,15 @@ fn run_source<B: Backend>(h: &str, kind: Kind, filter: Option<&str>, sample: Opt
         _ if h.len() <= INLINE_CAP => "inline",
         _ => "allocated",
     };
+    cx.stage("@source");
     if src_class != expected_class {
-        cx.cur = ("source", "-", None, Dir::Fwd);
         cx.fail("monitor:source", format!("source representation {expected_class}"), src_class.to_string());
     }
     run_all(&src, h, &mut cx);
+    cx.stage("@calls");
+    cx.alloc_violations(true);
     // (b) mutate the source in place, then drop it
+    cx.stage("@mutate-source");
     let mut src = src;
     let mutated = caught(AssertUnwindSafe(|| {
         src.make_ascii_uppercase();
@@ -817,27 +940,94 @@ fn run_source<B: Backend>(h: &str, kind: Kind, filter: Option<&str>, sample: Opt
         src.len()
     }));
     if mutated != Some(h.len() + 6) {
-        cx.cur = ("source", "-", None, Dir::Fwd);
         cx.fail("monitor:source", format!("mutated source of len {}", h.len() + 6), format!("{mutated:?}"));
     }
+    cx.alloc_violations(true);
     cx.verify("after-source-mutation", "monitor:after-source-mutation");
-    drop(src);
-    cx.verify("after-source-drop", "monitor:after-source-drop");
-    let st = SrcStats {
+    let mut forgot = false;
+    if cx.fails.iter().any(|f| is_memory_safety(f.kind)) {
+        // the heap cannot be trusted: no further drop
+        std::mem::forget(src);
+        forgot = true;
+    } else {
+        cx.stage("@drop-source");
+        drop(src);
+        cx.alloc_violations(true);
+        cx.verify("after-source-drop", "monitor:after-source-drop");
+    }
+    if forgot || cx.fails.iter().any(|f| f.kind.starts_with("monitor")) {
+        // a broken share count must not take the report down
+        std::mem::forget(std::mem::take(&mut cx.pieces));
+        forgot = true;
+    } else {
+        cx.stage("@drop-pieces");
+        drop(std::mem::take(&mut cx.pieces));
+        cx.alloc_violations(true);
+    }
+    if trace_on() {
+        trace(&format!("{} | stage @end", cx.trace_prefix));
+    }
+    Tracked {
+        fails: std::mem::take(&mut cx.fails),
         calls: cx.calls,
         nontrivial: cx.nontrivial,
         pieces: cx.pieces_total,
         repr: cx.repr_counts,
+        whole_heap: cx.whole_heap,
         per_method: std::mem::take(&mut cx.per_method),
         samples: std::mem::take(&mut cx.samples),
         src_class,
-    };
-    let fails = std::mem::take(&mut cx.fails);
-    if fails.iter().any(|f| f.kind.starts_with("monitor")) {
-        // a broken share count must not take the report down with a double free
-        std::mem::forget(std::mem::take(&mut cx.pieces));
+        forgot,
     }
-    drop(cx);
+}
+
+/// One source inside one TRACK window of the allocator; the results are copied out of the window
+/// before `end_sequence` verifies and releases every block of the window.
+fn run_source<B: Backend>(h: &str, kind: Kind, bk: &'static str, filter: Option<&str>, sample: Option<u64>) -> (Vec<Fail>, SrcStats) {
+    let stale = alloc::take_violations();
+    alloc::set_mode(alloc::TRACK);
+    let t = tracked::<B>(h, kind, bk, filter, sample);
+    alloc::set_mode(alloc::OFF);
+    // deep copies made OUTSIDE the window
+    let mut fails: Vec<Fail> = t.fails.iter().cloned().collect();
+    let mut st = SrcStats {
+        calls: t.calls,
+        nontrivial: t.nontrivial,
+        pieces: t.pieces,
+        repr: t.repr,
+        whole_heap: t.whole_heap,
+        per_method: t.per_method.iter().map(|(k, v)| (*k, *v)).collect(),
+        samples: t.samples.iter().map(|s| s.as_str().to_owned()).collect(),
+        src_class: t.src_class,
+        table_full: 0,
+    };
+    let forgot = t.forgot;
+    drop(t);
+    let mut viol = alloc::take_violations();
+    alloc::end_sequence();
+    viol.extend(alloc::take_violations());
+    for (where_, list) in [("@between-sources", stale), ("@end", viol)] {
+        for (k, serial, size) in list {
+            if k == alloc::V_TABLE_FULL {
+                st.table_full += 1;
+                continue;
+            }
+            if forgot && (k == alloc::V_LEAK || k == alloc::V_POISON) {
+                // leaked on purpose after a monitor fired
+                continue;
+            }
+            let kind = alloc_kind(k);
+            if fails.iter().any(|f| f.kind == kind && f.label.starts_with(where_)) {
+                continue;
+            }
+            fails.push(Fail {
+                kind,
+                label: format!("{where_} pat=- dir=fwd"),
+                expected: "every block freed exactly once with its own layout, nothing written outside live blocks, nothing leaked".into(),
+                observed: format!("{} (block #{serial}, size {})", alloc::violation_name(k), size & 0xffff_ffff_ffff),
+            });
+        }
+    }
     (fails, st)
 }
 
@@ -846,18 +1036,22 @@ struct SrcStats {
     nontrivial: u64,
     pieces: u64,
     repr: [u64; 3],
+    whole_heap: u64,
     per_method: BTreeMap<&'static str, u64>,
     samples: Vec<String>,
     src_class: &'static str,
+    table_full: u64,
 }
 
 fn run_dyn(h: &str, kind: Kind, bk: Bk, filter: Option<&str>, sample: Option<u64>) -> (Vec<Fail>, SrcStats) {
     match bk {
-        Bk::Arc => run_source::<Arc>(h, kind, filter, sample),
-        Bk::Rc => run_source::<Rc>(h, kind, filter, sample),
-        Bk::Unique => run_source::<Unique>(h, kind, filter, sample),
+        Bk::Arc => run_source::<Arc>(h, kind, bk.name(), filter, sample),
+        Bk::Rc => run_source::<Rc>(h, kind, bk.name(), filter, sample),
+        Bk::Unique => run_source::<Unique>(h, kind, bk.name(), filter, sample),
     }
 }
+
+const MAX_DISAGREEMENTS: usize = 20;
 
 fn account(st: &mut Stats, h: &str, kind: Kind, bk: Bk, sample: Option<u64>) {
     let (fails, ss) = run_dyn(h, kind, bk, None, sample);
@@ -869,6 +1063,12 @@ fn account(st: &mut Stats, h: &str, kind: Kind, bk: Bk, sample: Option<u64>) {
     st.hit("piece inline", ss.repr[0]);
     st.hit("piece borrowed", ss.repr[1]);
     st.hit("piece allocated", ss.repr[2]);
+    if ss.whole_heap > 0 {
+        st.hit(&format!("piece whole-haystack of heap source {}", bk.name()), ss.whole_heap);
+    }
+    if ss.table_full > 0 {
+        st.hit("allocator block table full (blocks not tracked)", ss.table_full);
+    }
     for (m, n) in ss.per_method {
         st.hit(&format!("method {m}"), n);
     }
@@ -877,17 +1077,87 @@ fn account(st: &mut Stats, h: &str, kind: Kind, bk: Bk, sample: Option<u64>) {
             st.samples.push(format!("{s} [{} {}]", kind.name(), bk.name()));
         }
     }
+    let mut new_key = false;
     for f in fails {
         st.total_fails += 1;
+        if is_memory_safety(f.kind) {
+            st.stop = Some("memory-safety monitor fired");
+        }
         // one report per (impl-vs-oracle, method): the shortest haystack, first pattern in enumeration order
         // (monitor checks: one per check class)
         let method = f.label.split(|c| c == ' ' || c == '[').next().unwrap_or("");
         let key = if f.kind.starts_with("monitor") { f.kind.to_string() } else { format!("{} {method}", f.kind) };
-        let better = st.found.get(&key).map_or(true, |(old, ..)| h.len() < old.len());
-        if better {
+        let old = st.found.get(&key).map(|(old, ..)| old.len());
+        if old.map_or(true, |o| h.len() < o) {
+            new_key |= old.is_none();
             st.found.insert(key, (h.to_string(), kind, bk, f));
         }
     }
+    if st.found.len() >= MAX_DISAGREEMENTS && st.stop.is_none() {
+        st.stop = Some("20 disagreements");
+    }
+    if new_key {
+        // never lose a finding to a later crash
+        flush(st, false, false);
+    }
+}
+
+/// The stats document. `final_` = shrink the haystacks (never after a memory-safety monitor).
+fn render(st: &Stats, complete: bool, final_: bool) -> (serde_json::Value, usize) {
+    let mut disagreements: Vec<serde_json::Value> = st.extra.clone();
+    let memory_unsafe = st.found.values().any(|(_, _, _, f)| is_memory_safety(f.kind));
+    for (h, kind, bk, f) in st.found.values().take(40) {
+        let is_piece_method = f.label.contains(" pat=");
+        let (h, f) = if final_ && is_piece_method && !st.replay && !memory_unsafe && !f.label.starts_with('@') {
+            shrink(h, *kind, *bk, f.clone())
+        } else {
+            (h.clone(), f.clone())
+        };
+        let input = if is_piece_method {
+            vec![format!("hay {} {} {}", hex(h.as_bytes()), kind.name(), bk.name()), format!("call {}", f.label)]
+        } else {
+            vec![format!("{} {} {}", f.label, bk.name(), if f.label.starts_with("from_utf16") { h.clone() } else { hex(h.as_bytes()) })]
+        };
+        let (kind, check) = f.kind.split_once(':').unwrap_or((f.kind, ""));
+        let expected = if check.is_empty() { f.expected.clone() } else { format!("[{check}] {}", f.expected) };
+        disagreements.push(serde_json::json!({
+            "kind": kind, "input": input, "expected": expected, "observed": f.observed, "profile": st.profile,
+        }));
+    }
+    let n = disagreements.len();
+    let v = serde_json::json!({
+        "complete": complete,
+        "stopped_early": st.stop,
+        "evaluations": st.evaluations,
+        "distinct_nontrivial": st.nontrivial,
+        "rule": "every inherited str method of HipStr yields item for item (strings, indices, tuple halves, Option) what std yields on as_str(), forward/backward/mixed; every piece is borrowed iff the source is (aliasing the original data), valid UTF-8, normalised, views live memory and reads unchanged after the source is mutated and after it is dropped; every block is freed exactly once",
+        "exhaustive": !st.replay && st.stop.is_none(),
+        "distribution": st.dist,
+        "pieces_checked": st.pieces,
+        "sources": st.sources,
+        "failing_checks_total": st.total_fails,
+        "samples": st.samples,
+        "disagreements": disagreements,
+        "internal_errors": st.internal,
+    });
+    (v, n)
+}
+
+/// Writes the stats file atomically (tmp + rename); returns the number of disagreements.
+fn flush(st: &Stats, complete: bool, final_: bool) -> usize {
+    let (v, n) = render(st, complete, final_);
+    let text = serde_json::to_string_pretty(&v).unwrap();
+    match &st.out_path {
+        Some(p) => {
+            let tmp = format!("{p}.tmp");
+            if std::fs::write(&tmp, &text).and_then(|_| std::fs::rename(&tmp, p)).is_err() {
+                eprintln!("patdrive: cannot write {p}");
+            }
+        }
+        None if complete => println!("{text}"),
+        None => {}
+    }
+    n
 }
 
 /// deletes characters from the haystack while the same (kind, label) disagreement reproduces
@@ -1105,20 +1375,52 @@ fn parse_ops(lines: &[String]) -> Option<(String, Kind, Bk, Option<String>)> {
     Some((h, k, b, call))
 }
 
+/// Long haystacks (> 23 bytes, hence heap when owned) of which many methods return the WHOLE
+/// haystack as one piece: separator absent, `splitn(1, …)`, nothing to trim, `strip_prefix("")`,
+/// a single unterminated line. Run first (and in every tier) as heap, heap-slice and borrowed sources
+/// on the three backends, so that the self-sufficiency of whole-haystack pieces of heap sources
+/// (mutate the source then read the piece, drop the source then read the piece) does not depend on
+/// the random part.
+const WHOLE: [&str; 6] = [
+    "abababababababababababab",
+    "abababababababababababababab",
+    "a\u{e9}b\u{20ac}a\u{1f980}b\u{e9}a\u{20ac}b\u{1f980}ab",
+    "a b\nb a\r\nab \u{e9}\u{20ac} \u{1f980} ab ab ab",
+    "bbbbbbbbbbbbbbbbbbbbbbbbbbbbbbbb",
+    " abababababababababababababab\n",
+];
+
 fn main() {
     let cli = parse_cli();
     std::panic::set_hook(Box::new(|_| {}));
     let thorough = cli.tier == "thorough";
     let mut st = Stats::default();
     let mut rng = Rng::new(cli.seed);
-    let profile = if cfg!(debug_assertions) { "debug" } else { "release" };
-    let mut model_reports: Vec<serde_json::Value> = vec![];
+    st.profile = if cfg!(debug_assertions) { "debug" } else { "release" };
+    st.out_path = cli.out.clone();
+    st.replay = cli.replay.is_some();
+    let profile = st.profile;
+
+    // crash localisation
+    if let Ok(path) = std::env::var("VERIF_TRACE") {
+        match std::fs::OpenOptions::new().write(true).create(true).truncate(true).open(&path) {
+            Ok(f) => {
+                let _ = TRACE_FILE.set(f);
+                TRACE_ON.store(true, Ordering::Relaxed);
+                trace("start");
+            }
+            Err(e) => {
+                eprintln!("patdrive: VERIF_TRACE {path}: {e}");
+                std::process::exit(2);
+            }
+        }
+    }
 
     // optional: the wiring table must have no falsifying row
     if let Some(path) = &cli.lean {
         match LeanDriver::spawn(path, &[]).and_then(|mut d| d.ask("rows")) {
             Ok(ans) if ans == "none" => st.hit("lean wiring rows ok", 1),
-            Ok(ans) => model_reports.push(serde_json::json!({
+            Ok(ans) => st.extra.push(serde_json::json!({
                 "kind": "impl-vs-model", "input": ["rows"], "expected": "none", "observed": ans, "profile": profile,
             })),
             Err(e) => {
@@ -1127,6 +1429,8 @@ fn main() {
             }
         }
     }
+    // a stats file exists from the first moment on
+    flush(&st, false, false);
 
     if let Some(path) = &cli.replay {
         // a disagreement object, a stats file with `disagreements`, or `{"input":[…]}`
@@ -1159,129 +1463,157 @@ fn main() {
             st.evaluations += ss.calls;
             st.pieces += ss.pieces;
             st.sources += 1;
+            let mut unsafe_ = false;
             for f in fails {
                 st.total_fails += 1;
+                unsafe_ |= is_memory_safety(f.kind);
                 st.found.insert(format!("{} {} {}", f.kind, f.label, hex(h.as_bytes())), (h.clone(), k, b, f));
             }
-        }
-    } else {
-        // ---- exhaustive part: all strings of at most `max_units` units
-        let max_units = if thorough { 6 } else { 4 };
-        // every backend up to this many units; above, the backend rotates with the haystack index
-        let all_backends_upto = if thorough { 5 } else { 4 };
-        let mut idx: Vec<usize> = vec![];
-        let mut count = 0u64;
-        let mut h = String::new();
-        loop {
-            h.clear();
-            for &i in &idx {
-                h.push_str(UNITS[i]);
-            }
-            count += 1;
-            let sample = if count % 467 == 1 { Some(count * 37 % 1300) } else { None };
-            let kinds: &[Kind] = if h.len() <= INLINE_CAP { &[Kind::Inline, Kind::Borrowed] } else { &[Kind::Heap, Kind::HeapSlice, Kind::Borrowed] };
-            let bks: Vec<Bk> = if idx.len() <= all_backends_upto {
-                vec![Bk::Arc, Bk::Rc, Bk::Unique]
-            } else {
-                vec![[Bk::Arc, Bk::Rc, Bk::Unique][(count % 3) as usize]]
-            };
-            for &k in kinds {
-                for &b in &bks {
-                    account(&mut st, &h, k, b, if k == Kind::Inline && b == bks[0] { sample } else { None });
-                }
-            }
-            // next index vector (shortlex)
-            let mut pos = idx.len();
-            loop {
-                if pos == 0 {
-                    idx = vec![0; idx.len() + 1];
-                    break;
-                }
-                pos -= 1;
-                if idx[pos] + 1 < UNITS.len() {
-                    idx[pos] += 1;
-                    for x in idx.iter_mut().skip(pos + 1) {
-                        *x = 0;
-                    }
-                    break;
-                }
-            }
-            if idx.len() > max_units {
+            flush(&st, false, false);
+            if unsafe_ {
+                st.stop = Some("memory-safety monitor fired");
                 break;
             }
         }
-        st.hit("haystacks enumerated", count);
-
-        // ---- random longer haystacks: heap, heap offset slices, borrowed (and inline when short)
-        let n_random = if thorough { 6000 } else { 600 };
-        for r in 0..n_random {
-            let n = if r % 4 == 0 { 5 + rng.below(6) } else { 8 + rng.below(40) };
-            // skewed alphabets so that long matches / separators runs occur
-            let skew = rng.below(4);
-            let mut h = String::new();
-            for _ in 0..n {
-                let u = match skew {
-                    0 => rng.below(8),
-                    1 => [0, 0, 0, 1, 2, 5][rng.below(6)],
-                    2 => [2, 3, 4, 0, 2, 7][rng.below(6)],
-                    _ => [0, 1, 5, 6, 7, 4][rng.below(6)],
-                };
-                h.push_str(UNITS[u]);
-            }
-            let kinds: &[Kind] = if h.len() <= INLINE_CAP { &[Kind::Inline, Kind::Borrowed] } else { &[Kind::Heap, Kind::HeapSlice, Kind::Borrowed] };
-            for &k in kinds {
-                for b in [Bk::Arc, Bk::Rc, Bk::Unique] {
-                    account(&mut st, &h, k, b, if r % 50 == 0 && k == Kind::HeapSlice && b == Bk::Arc { Some(r as u64 * 7 % 1300) } else { None });
+    } else {
+        'plan: {
+            // ---- whole-haystack pieces of heap sources, all backends
+            for h in WHOLE {
+                for k in [Kind::Heap, Kind::HeapSlice, Kind::Borrowed] {
+                    for b in [Bk::Arc, Bk::Rc, Bk::Unique] {
+                        account(&mut st, h, k, b, None);
+                        if st.stop.is_some() {
+                            break 'plan;
+                        }
+                    }
                 }
             }
+            st.hit("haystacks whole-piece (fixed)", WHOLE.len() as u64);
+
+            // ---- exhaustive part: all strings of at most `max_units` units
+            let max_units = if thorough { 6 } else { 4 };
+            // every backend up to this many units; above, the backend rotates with the haystack index
+            let all_backends_upto = if thorough { 5 } else { 4 };
+            let mut idx: Vec<usize> = vec![];
+            let mut count = 0u64;
+            let mut h = String::new();
+            loop {
+                h.clear();
+                for &i in &idx {
+                    h.push_str(UNITS[i]);
+                }
+                count += 1;
+                let sample = if count % 467 == 1 { Some(count * 37 % 1300) } else { None };
+                let kinds: &[Kind] = if h.len() <= INLINE_CAP { &[Kind::Inline, Kind::Borrowed] } else { &[Kind::Heap, Kind::HeapSlice, Kind::Borrowed] };
+                let bks: Vec<Bk> = if idx.len() <= all_backends_upto {
+                    vec![Bk::Arc, Bk::Rc, Bk::Unique]
+                } else {
+                    vec![[Bk::Arc, Bk::Rc, Bk::Unique][(count % 3) as usize]]
+                };
+                for &k in kinds {
+                    for &b in &bks {
+                        account(&mut st, &h, k, b, if k == Kind::Inline && b == bks[0] { sample } else { None });
+                        if st.stop.is_some() {
+                            break 'plan;
+                        }
+                    }
+                }
+                // next index vector (shortlex)
+                let mut pos = idx.len();
+                loop {
+                    if pos == 0 {
+                        idx = vec![0; idx.len() + 1];
+                        break;
+                    }
+                    pos -= 1;
+                    if idx[pos] + 1 < UNITS.len() {
+                        idx[pos] += 1;
+                        for x in idx.iter_mut().skip(pos + 1) {
+                            *x = 0;
+                        }
+                        break;
+                    }
+                }
+                if idx.len() > max_units {
+                    break;
+                }
+            }
+            st.hit("haystacks enumerated", count);
+
+            // ---- random longer haystacks: heap, heap offset slices, borrowed (and inline when short)
+            let n_random = if thorough { 6000 } else { 600 };
+            for r in 0..n_random {
+                let n = if r % 4 == 0 { 5 + rng.below(6) } else { 8 + rng.below(40) };
+                // skewed alphabets so that long matches / separators runs occur
+                let skew = rng.below(4);
+                let mut h = String::new();
+                for _ in 0..n {
+                    let u = match skew {
+                        0 => rng.below(8),
+                        1 => [0, 0, 0, 1, 2, 5][rng.below(6)],
+                        2 => [2, 3, 4, 0, 2, 7][rng.below(6)],
+                        _ => [0, 1, 5, 6, 7, 4][rng.below(6)],
+                    };
+                    h.push_str(UNITS[u]);
+                }
+                let kinds: &[Kind] = if h.len() <= INLINE_CAP { &[Kind::Inline, Kind::Borrowed] } else { &[Kind::Heap, Kind::HeapSlice, Kind::Borrowed] };
+                for &k in kinds {
+                    for b in [Bk::Arc, Bk::Rc, Bk::Unique] {
+                        account(&mut st, &h, k, b, if r % 50 == 0 && k == Kind::HeapSlice && b == Bk::Arc { Some(r as u64 * 7 % 1300) } else { None });
+                        if st.stop.is_some() {
+                            break 'plan;
+                        }
+                    }
+                }
+            }
+            st.hit("haystacks random", n_random as u64);
+
+            if trace_on() {
+                trace("allocating functions (to_*case, repeat, from_utf16*)");
+            }
+            owned_checks(&mut st, thorough, &mut rng);
+            // these run outside a tracking window: only bad frees can be seen
+            for (k, serial, size) in alloc::take_violations() {
+                if k == alloc::V_TABLE_FULL {
+                    continue;
+                }
+                st.total_fails += 1;
+                st.stop = Some("memory-safety monitor fired");
+                st.found.insert(
+                    alloc_kind(k).to_string(),
+                    (
+                        String::new(),
+                        Kind::Inline,
+                        Bk::Arc,
+                        Fail {
+                            kind: alloc_kind(k),
+                            label: "allocating-functions".into(),
+                            expected: "every block freed exactly once".into(),
+                            observed: format!("{} (block #{serial}, size {})", alloc::violation_name(k), size & 0xffff_ffff_ffff),
+                        },
+                    ),
+                );
+            }
         }
-        st.hit("haystacks random", n_random as u64);
-
-        owned_checks(&mut st, thorough, &mut rng);
     }
 
-    // ---- report
-    let mut disagreements: Vec<serde_json::Value> = model_reports;
-    let found = std::mem::take(&mut st.found);
-    for (_, (h, kind, bk, f)) in found.into_iter().take(40) {
-        let is_piece_method = f.label.contains(" pat=");
-        let (h, f) = if is_piece_method && cli.replay.is_none() { shrink(&h, kind, bk, f) } else { (h, f) };
-        let input = if is_piece_method {
-            vec![format!("hay {} {} {}", hex(h.as_bytes()), kind.name(), bk.name()), format!("call {}", f.label)]
-        } else {
-            vec![format!("{} {} {}", f.label, bk.name(), if f.label.starts_with("from_utf16") { h.clone() } else { hex(h.as_bytes()) })]
-        };
-        let (kind, check) = f.kind.split_once(':').unwrap_or((f.kind, ""));
-        let expected = if check.is_empty() { f.expected.clone() } else { format!("[{check}] {}", f.expected) };
-        disagreements.push(serde_json::json!({
-            "kind": kind, "input": input, "expected": expected, "observed": f.observed, "profile": profile,
-        }));
+    // ---- report (haystacks are shrunk unless the heap may be corrupted)
+    if trace_on() {
+        trace("report");
     }
-    let n_dis = disagreements.len();
-    let stats = serde_json::json!({
-        "evaluations": st.evaluations,
-        "distinct_nontrivial": st.nontrivial,
-        "rule": "every inherited str method of HipStr yields item for item (strings, indices, tuple halves, Option) what std yields on as_str(), forward/backward/mixed; every piece is borrowed iff the source is (aliasing the original data), valid UTF-8, normalised, and unchanged after the source is mutated and after it is dropped",
-        "exhaustive": cli.replay.is_none(),
-        "distribution": st.dist,
-        "pieces_checked": st.pieces,
-        "sources": st.sources,
-        "failing_checks_total": st.total_fails,
-        "samples": st.samples,
-        "disagreements": disagreements,
-        "internal_errors": st.internal,
-    });
-    let text = serde_json::to_string_pretty(&stats).unwrap();
-    match &cli.out {
-        Some(p) => std::fs::write(p, &text).expect("write stats"),
-        None => println!("{text}"),
-    }
+    let n_dis = flush(&st, true, true);
     eprintln!(
-        "patdrive[{profile}/{}]: {} calls, {} pieces, {} sources, {} disagreement(s)",
-        cli.tier, st.evaluations, st.pieces, st.sources, n_dis
+        "patdrive[{profile}/{}]: {} calls, {} pieces, {} sources, {} disagreement(s){}",
+        cli.tier,
+        st.evaluations,
+        st.pieces,
+        st.sources,
+        n_dis,
+        st.stop.map_or(String::new(), |s| format!(" — stopped early: {s}"))
     );
     if !st.internal.is_empty() {
         std::process::exit(2);
     }
+    // no destructor runs: whatever is left of the heap is not touched again
     std::process::exit(if n_dis == 0 { 0 } else { 1 });
 }
